@@ -12,6 +12,7 @@
 //   PGNRT <seed> <size> <fenhex>     random game tree (variations, comments, NAGs): write, parse with PgnReader, compare
 //   PGNTS <seed> <size> <fenhex>     random game tree: GameTree::getGameTreeString (the repo's own writer), parse, compare
 //   PGNTXT <seed> <size> <fenhex>    only print the PGN text of such a tree ("X <hex>"), as a base for mutation
+//   SCAN <hex>                       PgnScanner::nextToken until END on arbitrary bytes: "K <type>:<hex text> ..." (modelled)
 //   PGN <hex>                        PgnReader on arbitrary bytes (must return or throw ChessParseError)
 //
 // stdout: lines starting with a lower-case keyword are operations (fed verbatim to the OCaml driver of
@@ -603,6 +604,19 @@ int main() {
         } else if (cmd == "PGNTXT") {
             u64 seed; int size; std::string h; is >> seed >> size >> h;
             pgnRoundTrip(out, seed, size, fromHexStr(h), (seed & 1) != 0, true);
+        } else if (cmd == "SCAN") {
+            // the tokenizer alone: every token PgnScanner::nextToken delivers before the first END
+            std::string h; is >> h;
+            out << "scan " << h << '\n';
+            std::istringstream ps(fromHexStr(h));
+            PgnScanner sc(ps);
+            out << "K";
+            for (int n = 0; n < 200000; n++) {
+                PgnToken t = sc.nextToken();
+                if (t.type == PgnToken::END) break;
+                out << ' ' << t.type << ':' << toHexStr(t.token);
+            }
+            out << '\n';
         } else if (cmd == "PGN") {
             std::string h; is >> h;
             pgnBytes(out, fromHexStr(h));
